@@ -273,7 +273,11 @@ def run_model(cfg, profile, lines, jobs=None, heavy=False):
     size = (n + k - 1) // k
     chunks = [lines[i:i + size] for i in range(0, n, size)]
     def one(ch):
-        p = subprocess.run([DRIVER, cfg, profile], input=("\n".join(ch) + "\n").encode("latin-1"), stdout=subprocess.PIPE, stderr=subprocess.PIPE)
+        try:
+            p = subprocess.run([DRIVER, cfg, profile], input=("\n".join(ch) + "\n").encode("latin-1"), stdout=subprocess.PIPE,
+                               stderr=subprocess.PIPE, timeout=int(os.environ.get("VERIF_DRIVER_TIMEOUT", "2400")))
+        except subprocess.TimeoutExpired:
+            raise RuntimeError("driver timed out on a chunk of %d lines (first: %s)" % (len(ch), ch[0][:200]))
         out = p.stdout.decode("latin-1").split("\n")
         if out and out[-1] == "":
             out.pop()
